@@ -293,6 +293,35 @@ func (r *runner) deletePatterns(mint, maxt int64, sel []int) []string {
 	return out
 }
 
+// compactWouldResurrect predicts the finding head-compaction-drops-tombstone-of-straddling-chunk
+// for a DB.Compact issued now: some in-order head chunk straddles a block boundary B the head
+// compaction will truncate to, and holds a sample below B covered by a head tombstone ending
+// below B (which MemTombstones.TruncateBefore(B) will drop).
+func (r *runner) compactWouldResurrect() bool {
+	mi, ma, _ := r.d.HeadTimes()
+	if tsdbx.Unset(mi, ma) || !r.d.Compactable() {
+		return false
+	}
+	tombs := r.d.HeadTombstones()
+	for i, cs := range view(r.d, r.n).io {
+		for _, c := range cs {
+			for B := (mi/blockRange)*blockRange + blockRange; B <= c.MaxT && B <= ma; B += blockRange {
+				if c.MinT >= B {
+					continue
+				}
+				for _, x := range c.Samples {
+					for _, iv := range tombs[lblName(i)] {
+						if x.T < B && iv[0] <= x.T && x.T <= iv[1] && iv[1] < B {
+							return true
+						}
+					}
+				}
+			}
+		}
+	}
+	return false
+}
+
 // restartLowersMinValid: the next restart would compute a minValidTime below the current one
 // (C01 finding restart-replays-compacted-samples / unmodelled WAL checkpoints).
 func (r *runner) restartLowersMinValid() bool {
@@ -408,6 +437,7 @@ func (r *runner) apply(o hop) bool {
 		oooBlocks := func() int { return len(r.d.Blocks()) - inOrderBlocks() }
 		nb, nbAll, nOOO := inOrderBlocks(), len(r.d.Blocks()), oooBlocks()
 		hminBefore, _, _ := r.d.HeadTimes()
+		tombsBefore := r.d.HeadTombstones()
 		switch o.Kind {
 		case opCompact:
 			err, name = r.d.Compact(), "Compact"
@@ -433,6 +463,22 @@ func (r *runner) apply(o hop) bool {
 		}
 		if o.Kind != opClean && oooBlocks() > nOOO {
 			r.oooBlock = true
+		}
+		if o.Kind != opClean {
+			// FINDING pattern (see notes/C20.md): the head's gc dropped a tombstone
+			// (MemTombstones.TruncateBefore(Head.MinTime)) although the chunk holding the deleted sample
+			// is still in the head (it straddles the new Head.MinTime); the head querier has no floor at
+			// Head.MinTime, so the deleted sample is returned again
+			tombsAfter := r.d.HeadTombstones()
+			for i, cs := range view(r.d, r.n).io {
+				for _, c := range cs {
+					for _, x := range c.Samples {
+						if coveredBy(tombsBefore[lblName(i)], x.T) && !coveredBy(tombsAfter[lblName(i)], x.T) {
+							r.notePattern("head-compaction-drops-tombstone-of-straddling-chunk")
+						}
+					}
+				}
+			}
 		}
 		if o.Kind == opCompact && inOrderBlocks() > nb {
 			r.classes["head-block-cut"]++
@@ -1016,6 +1062,12 @@ func (r *runner) generate(g *gen.Rand) {
 				r.classes["avoided-restart-lowering-minvalidtime"]++
 				continue
 			}
+		case opCompact:
+			// the C20 finding of notes/C20.md: entered only with C20_FINDINGS=1
+			if os.Getenv("C20_FINDINGS") == "" && r.compactWouldResurrect() {
+				r.classes["avoided-head-compaction-drops-tombstone-of-straddling-chunk"]++
+				continue
+			}
 		case opQuery, opChunkQuery:
 			if !step(o) {
 				return
@@ -1140,6 +1192,28 @@ func histCorpus() []histFixed {
 		{"delete-across-ooo-blocks", 1, 100000, []hop{
 			txs(smp{0, 1000, 1}), txs(smp{0, 2000, 2}), txs(smp{0, 500, 3}), txs(smp{0, 1500, 4}), {Kind: opCompactOOO}, fq(1),
 			del(400, 1600, 0), fq(1), {Kind: opClean}, fq(1), fcq(1)}},
+	}
+}
+
+// histFindings: reproducers of genuine C20 violations of the unchanged code (opt-in with
+// C20_FINDINGS=1 until they are fixed or listed in known-findings.txt; see notes/C20.md).
+func histFindings() []histFixed {
+	return []histFixed{
+		// series 1's chunk [-707 .. 0] straddles 0 (rangeForTimestamp(-707) = 1000 by truncating
+		// division); the head compaction cuts block [-1000,0) without -707, truncates the head to 0,
+		// drops the tombstone [-707,-707] (TruncateBefore(0)) but keeps the chunk: -707 is back
+		{"finding-head-compaction-resurrects-deleted-sample", 2, 0, []hop{
+			txs(smp{0, -1000, 1}), txs(smp{1, -707, 2}), fq(2), del(-707, -707, 1), fq(2),
+			txs(smp{1, -498, 3}, smp{1, 0, 4}), txs(smp{0, 503, 5}), fq(2), {Kind: opCompact}, fq(2), fcq(2)}},
+		// the witness of C20_delete_history_refuted: everything appended before the Delete, only the
+		// head compaction after it
+		{"finding-head-compaction-resurrects-deleted-sample-coq-witness", 2, 0, []hop{
+			txs(smp{0, -1000, 1}), txs(smp{1, -707, 2}), txs(smp{1, -498, 3}, smp{1, 0, 4}), txs(smp{0, 503, 5}), fq(2),
+			del(-707, -707, 1), fq(2), {Kind: opCompact}, fq(2)}},
+		// all samples of the block-to-be deleted: no block is written at all
+		{"finding-head-compaction-resurrects-deleted-sample-empty-block", 2, 0, []hop{
+			txs(smp{1, -1000, 1}), txs(smp{0, -999, 2}, smp{0, -998, 3}), fq(2), del(-1001, math.MaxInt64, 0, 1), fq(2),
+			txs(smp{1, 0, 4}, smp{1, 1, 5}, smp{0, 2, 6}), txs(smp{1, 559, 7}), fq(2), {Kind: opCompact}, fq(2)}},
 	}
 }
 
